@@ -6,6 +6,15 @@ import sys
 import time
 
 VERIF = os.path.dirname(os.path.dirname(os.path.abspath(__file__)))
+REPO = os.environ.get("NEOLITH_REPO", "/repo").rstrip("/")
+EVDIR = os.environ.get("VERIF_EVIDENCE_DIR", os.path.join(VERIF, "evidence"))
+
+
+def rel(p):
+    """Path relative to the analysed repository root (stable instance ids)."""
+    if p and p.startswith(REPO + "/"):
+        return p[len(REPO) + 1:]
+    return p
 
 
 class Broken(Exception):
@@ -38,8 +47,8 @@ class Run:
         """Record that a function was analysed."""
         if func is None:
             return
-        self.functions.add("%s:%s" % (os.path.relpath(func.file, "/repo") if func.file.startswith("/repo") else func.file, func.name))
-        self.units.add(func.unit.path if func.unit else func.file)
+        self.functions.add("%s:%s" % (rel(func.file), func.name))
+        self.units.add(rel(func.unit.path if func.unit else func.file))
 
     def need(self, thing, what):
         """Anchor must exist."""
@@ -52,8 +61,7 @@ class Run:
         """Record one obligation. ok: True (discharged) / False (violated) / None (undecided)."""
         if rule not in self.rule_desc:
             raise Broken("internal: undeclared rule " + rule)
-        if file and file.startswith("/repo/"):
-            file = file[len("/repo/"):]
+        file = rel(file)
         self.obls.append({"rule": rule, "instance": inst, "ok": ok, "detail": detail, "file": file, "line": line,
                           "func": func, "what": what or detail})
         return ok
@@ -95,7 +103,7 @@ class Run:
             else:
                 new_viol.append(o)
 
-        rdir = os.path.join(VERIF, "evidence", "replay")
+        rdir = os.path.join(EVDIR, "replay")
         os.makedirs(rdir, exist_ok=True)
         for fn in os.listdir(rdir):
             if fn.startswith(self.pid + "-"):
@@ -104,7 +112,7 @@ class Run:
             print("KNOWN-FINDING: property=%s %s [%s] at %s:%s" % (self.pid, k.get("what", o["what"]), o["instance"], o["file"], o["line"]))
         replay_paths = []
         for i, o in enumerate(new_viol):
-            rp = os.path.join(VERIF, "evidence", "replay", "%s-%d.json" % (self.pid, i))
+            rp = os.path.join(EVDIR, "replay", "%s-%d.json" % (self.pid, i))
             json.dump({"property": self.pid, "rule": o["rule"], "rule_text": self.rule_desc[o["rule"]],
                        "instance": o["instance"], "file": o["file"], "line": o["line"], "function": o["func"],
                        "detail": o["detail"],
@@ -165,10 +173,10 @@ class Run:
             "violations": len(new_viol),
         }
         ev["coverage"].update(self.extra)
-        os.makedirs(os.path.join(VERIF, "evidence"), exist_ok=True)
-        tmp = os.path.join(VERIF, "evidence", self.pid + ".json.tmp")
+        os.makedirs(EVDIR, exist_ok=True)
+        tmp = os.path.join(EVDIR, self.pid + ".json.tmp")
         json.dump(ev, open(tmp, "w"), indent=1)
-        os.replace(tmp, os.path.join(VERIF, "evidence", self.pid + ".json"))
+        os.replace(tmp, os.path.join(EVDIR, self.pid + ".json"))
         print("%s [%s]: %d obligations, %d discharged, %d undecided, %d known findings, %d new violations (%.1fs)" % (
             self.pid, self.tier, n_obl, n_dis, len(und), len(matched_known), len(new_viol), time.time() - self.t0))
         for r in sorted(counts):
